@@ -40,11 +40,20 @@ def run(ctx):
     ctx.rule("C12.selection", "per output: nested selection over the three cyclic frame permutations by strictly decreasing distance to the hexagonal projection, with telescoping class vectors of the rotated vector; axis = last column of the selected frame")
     dotted = "pydrex.diagnostics.elasticity_components"
     loc = defloc(ctx, dotted)
+    eigen_pairing(ctx)
     I = Interp(ctx.program)
     M = sym_matrix("M", 6)
     try:
         out = call_public(ctx, I, dotted, M.copy().reshape(1, 6, 6))
     except Abort:
+        return
+    except Exception as ex:
+        from ..values import Unsupported
+        from ..interp import RaiseSig
+        if isinstance(ex, RaiseSig):
+            raise
+        ctx.ob("C12.moduli", "elasticity_components", "inconclusive",
+               f"elasticity_components is outside the interpreted subset ({type(ex).__name__}: {str(ex)[:100]}); only the index-space rule was decided", loc)
         return
     if not isinstance(out, dict):
         ctx.ob("C12.moduli", "result", "inconclusive", f"result is {out!r}", loc)
@@ -134,6 +143,47 @@ def run(ctx):
     ctx.floor("C12.selection", 8)
     ctx.floor("C12.moduli", 2)
     ctx.sample({"bulk_modulus": short(alg.unfold_all(lift(out["bulk_modulus"][0])), 200)})
+
+
+def eigen_pairing(ctx):
+    """Index-space inference over elasticity_components (pdxsa/indexspace.py): the eigenvectors of the two contractions live in two different
+    index spaces (rank of the eigenvalue within its own decomposition); an integer ranging over one of them that indexes the other pairs the
+    eigenvectors by rank.  The two contractions of an orthorhombic tensor share their eigenvectors but not the order of their eigenvalues, so
+    such a pairing breaks the decomposition for every tensor whose contractions rank the symmetry axes differently."""
+    from .. import indexspace, flow
+    dotted = "pydrex.diagnostics.elasticity_components"
+    fn = ctx.program.require(dotted)
+    mod = ctx.program.module("pydrex.diagnostics")
+    loc = defloc(ctx, dotted)
+    ctx.rule("C12.pairing", "index-space inference: no integer that ranges over (or was selected within) the eigen-decomposition of one contraction indexes the "
+                            "eigenvectors of the other one; the pairing of the two eigenvector sets goes through a data-dependent search along the right axis")
+
+    def resolve(e):
+        d = flow.dotted(e)
+        if not d:
+            return None
+        parts = d.split(".")
+        imp = mod.imports.get(parts[0])
+        if imp and imp[0] == "module":
+            return ".".join([imp[1]] + parts[1:])
+        if imp and imp[0] == "from":
+            return ".".join([imp[1], imp[2]] + parts[1:])
+        return d
+    inf = indexspace.Inference(fn, resolve)
+    conflicts = inf.run()
+    sites = sorted(set(inf.eig_sites))
+    if len(sites) < 2:
+        ctx.observe(f"elasticity_components contains {len(sites)} eigen-decomposition call(s) that the index-space inference recognises; C12.pairing has nothing to decide")
+        ctx.ob("C12.pairing", "eigen-decompositions of the two contractions", True, f"{len(sites)} recognised", loc)
+        return
+    ctx.ob("C12.pairing", "eigen-decompositions of the two contractions", True, f"index spaces: {['line %d: eigh(%s)' % s_ for s_ in sites]}", loc)
+    if not conflicts:
+        ctx.ob("C12.pairing", "no index crosses from one decomposition to the other", True, "", loc)
+    for line, why, a, b in conflicts:
+        names = {f"eig@{ln}": f"eigh({org}) (line {ln})" for ln, org in sites}
+        ctx.ob("C12.pairing", f"line {line}: {why}", False,
+               f"{why}: an index of {names.get(a, a)} meets an index of {names.get(b, b)} — eigenvectors of the two contractions are paired by eigenvalue rank, "
+               "not by nearest axis", f"{ctx.program.relpath(mod.path)}:{line}")
 
 
 def frame_construction(ctx, I, M, H, comp, loc):
